@@ -184,7 +184,7 @@ fn sig_of(recs: &[Rec], subject: u64, picks: &[u64]) -> u64 {
     hash_words(&words)
 }
 
-pub async fn scenario_body(seed: u64, trace: Arc<Trace>, threaded: bool) -> (Facts2, Vec<String>) {
+pub async fn scenario_body(seed: u64, trace: Arc<Trace>, threaded: bool, tl: Option<ractor::thread_local::ThreadLocalActorSpawner>) -> (Facts2, Vec<String>) {
     let mut p = Prng::new(seed);
     let mut desc = vec![];
     let mut self_seq = 1_000_000u64;
@@ -267,7 +267,16 @@ pub async fn scenario_body(seed: u64, trace: Arc<Trace>, threaded: bool) -> (Fac
             return (facts, desc);
         }
     };
-    let spawned = spawn_probe(&subj, if linked { Some(sup_ref.get_cell()) } else { None }).await;
+    // thread engine: one scenario in three runs the subject as a thread-local actor (own OS thread + local runtime)
+    let use_tl = tl.is_some() && Prng::new(seed ^ 0x71).chance(1, 3);
+    if use_tl {
+        desc.push("subject is a thread-local actor".into());
+    }
+    let spawned = if use_tl {
+        spawn_tl_probe(&subj, if linked { Some(sup_ref.get_cell()) } else { None }, tl.clone().unwrap()).await
+    } else {
+        spawn_probe(&subj, if linked { Some(sup_ref.get_cell()) } else { None }).await
+    };
     let (subj_ref, subj_h) = match spawned {
         Ok(x) => x,
         Err(e) => {
@@ -452,7 +461,7 @@ pub fn run_one_vt(seed: u64) -> Outcome {
         c.set_log_points(true);
         let trace = Arc::new(Trace::new());
         *trace_cell.lock().unwrap() = Some(trace.clone());
-        let (f, d) = scenario_body(seed, trace.clone(), false).await;
+        let (f, d) = scenario_body(seed, trace.clone(), false, None).await;
         vt::quiesce(5).await;
         (f, d)
     });
@@ -481,12 +490,12 @@ pub fn run_one_vt(seed: u64) -> Outcome {
 }
 
 /// E-T: the same scenario on a multi-thread runtime (sleeps are real milliseconds) with H1 noise.
-pub fn run_one_th(seed: u64, rt: &tokio::runtime::Runtime) -> Outcome {
+pub fn run_one_th(seed: u64, rt: &tokio::runtime::Runtime, tl: &ractor::thread_local::ThreadLocalActorSpawner) -> Outcome {
     let mut pr = Prng::new(seed ^ 0x77);
     let intensity = *pr.pick(&[0u32, 30, 60]);
     crate::th::begin(seed, intensity);
     let trace = Arc::new(Trace::new());
-    let (_f, mut desc) = rt.block_on(scenario_body(seed, trace.clone(), true));
+    let (_f, mut desc) = rt.block_on(scenario_body(seed, trace.clone(), true, Some(tl.clone())));
     crate::th::end();
     let recs = trace.snapshot();
     let mut o = evaluate(&recs, &trace, false, &[], false);
@@ -510,10 +519,11 @@ pub fn run(args: &Args, rep: &mut Report) {
         None => args.indices().map(|i| args.scenario_seed(i)).collect(),
     };
     let rt = if args.engine == "th" { Some(crate::th::runtime(3)) } else { None };
+    let tl = if args.engine == "th" { Some(ractor::thread_local::ThreadLocalActorSpawner::new()) } else { None };
     for seed in seeds {
         crate::watch_begin(seed);
         let o = match &rt {
-            Some(rt) => run_one_th(seed, rt),
+            Some(rt) => run_one_th(seed, rt, tl.as_ref().unwrap()),
             None => run_one_vt(seed),
         };
         crate::watch_end();
